@@ -700,3 +700,131 @@ impl Fld for Fq12 {
         self.0.iter().all(|c| c.is_zero())
     }
 }
+
+// ---------------------------------------------------------------------------------------------
+// roots of small polynomials over Fq (used to construct inputs whose OUTPUT coordinate is prescribed)
+// ---------------------------------------------------------------------------------------------
+
+/// polynomials over Fq as coefficient vectors, lowest degree first, no trailing zeros
+fn fqptrim(mut a: Vec<Fq>) -> Vec<Fq> {
+    while a.last().map(|c| c.is_zero()).unwrap_or(false) {
+        a.pop();
+    }
+    a
+}
+fn fqpmul(a: &[Fq], b: &[Fq]) -> Vec<Fq> {
+    if a.is_empty() || b.is_empty() {
+        return vec![];
+    }
+    let mut r = vec![Fq::zero(); a.len() + b.len() - 1];
+    for (i, x) in a.iter().enumerate() {
+        for (j, y) in b.iter().enumerate() {
+            r[i + j] = r[i + j].add(&x.mul(y));
+        }
+    }
+    fqptrim(r)
+}
+fn fqprem(a: &[Fq], m: &[Fq]) -> Vec<Fq> {
+    let mut r = fqptrim(a.to_vec());
+    let dm = m.len() - 1;
+    let lead_inv = m[dm].inv().unwrap();
+    while r.len() > dm {
+        let d = r.len() - 1;
+        let c = r[d].mul(&lead_inv);
+        for i in 0..=dm {
+            let t = c.mul(&m[i]);
+            r[d - dm + i] = r[d - dm + i].sub(&t);
+        }
+        r = fqptrim(r);
+    }
+    r
+}
+fn fqpsub(a: &[Fq], b: &[Fq]) -> Vec<Fq> {
+    let n = std::cmp::max(a.len(), b.len());
+    let mut r = vec![Fq::zero(); n];
+    for i in 0..n {
+        let x = a.get(i).cloned().unwrap_or_else(Fq::zero);
+        let y = b.get(i).cloned().unwrap_or_else(Fq::zero);
+        r[i] = x.sub(&y);
+    }
+    fqptrim(r)
+}
+fn fqpgcd(a: &[Fq], b: &[Fq]) -> Vec<Fq> {
+    let (mut a, mut b) = (fqptrim(a.to_vec()), fqptrim(b.to_vec()));
+    while !b.is_empty() {
+        let r = fqprem(&a, &b);
+        a = b;
+        b = r;
+    }
+    if let Some(l) = a.last().cloned() {
+        let li = l.inv().unwrap();
+        a = a.iter().map(|c| c.mul(&li)).collect();
+    }
+    a
+}
+fn fqppowmod(base: &[Fq], e: &Z, m: &[Fq]) -> Vec<Fq> {
+    let mut acc = vec![Fq::one()];
+    let nb = e.bits();
+    for i in (0..nb).rev() {
+        acc = fqprem(&fqpmul(&acc, &acc), m);
+        if bit(e, i) {
+            acc = fqprem(&fqpmul(&acc, base), m);
+        }
+    }
+    acc
+}
+
+/// all roots in Fq of the polynomial f (coefficients lowest first, degree <= 4 intended)
+pub fn poly_roots_fq(f: &[Fq]) -> Vec<Fq> {
+    let f = fqptrim(f.to_vec());
+    if f.len() <= 1 {
+        return vec![];
+    }
+    // g = gcd(x^q - x, f): the product of the distinct linear factors
+    let x = vec![Fq::zero(), Fq::one()];
+    let xq = fqppowmod(&x, q(), &f);
+    let g = fqpgcd(&fqpsub(&xq, &x), &f);
+    let mut roots = vec![];
+    let mut stack = vec![g];
+    let half = (q() - Z::from(1u32)) >> 1;
+    let mut shift = 1u64;
+    while let Some(g) = stack.pop() {
+        match g.len() {
+            0 | 1 => {}
+            2 => roots.push(g[0].neg().mul(&g[1].inv().unwrap())),
+            _ => {
+                // split with gcd((x + s)^((q-1)/2) - 1, g)
+                loop {
+                    let lin = vec![Fq::from_u64(shift), Fq::one()];
+                    shift += 1;
+                    let h = fqpsub(&fqppowmod(&lin, &half, &g), &[Fq::one()]);
+                    let d = fqpgcd(&h, &g);
+                    if d.len() > 1 && d.len() < g.len() {
+                        // g / d by repeated remainder: quotient via long division
+                        let mut rem = g.clone();
+                        let mut quo = vec![Fq::zero(); g.len() - d.len() + 1];
+                        let dd = d.len() - 1;
+                        let li = d[dd].inv().unwrap();
+                        while rem.len() > dd {
+                            let k = rem.len() - 1;
+                            let c = rem[k].mul(&li);
+                            quo[k - dd] = c.clone();
+                            for i in 0..=dd {
+                                let t = c.mul(&d[i]);
+                                rem[k - dd + i] = rem[k - dd + i].sub(&t);
+                            }
+                            rem = fqptrim(rem);
+                        }
+                        stack.push(d);
+                        stack.push(fqptrim(quo));
+                        break;
+                    }
+                    if shift > 200 {
+                        break;
+                    }
+                }
+            }
+        }
+    }
+    roots
+}
